@@ -33,7 +33,8 @@ def complexify(ttns, rng):
     return c
 
 
-def prove(run):
+def prove(run, only=None):
+    """only: substring filter on the kernel-stub operations (e.g. 'limit', 'update'); the no-stub identities are skipped then (used by C05 / C12 / C08)"""
     nmax = 4 if run.tier == "quick" else 5
     ncase = 0
     for n_nodes in range(2, nmax + 1):
@@ -118,7 +119,7 @@ def prove(run):
                                    "phases (props.C11_sym.complexify); the identity is evaluated on the real float code"}
                     return f
                 with SH.symbolic_mode_tree():
-                    for oid, fn, fun in idents:
+                    for oid, fn, fun in (idents if only is None else []):
                         try:
                             lhs, rhs = fun(a, b, Hs, KS)
                         except Exception as ex:
@@ -126,20 +127,21 @@ def prove(run):
                             continue
                         decide(run, f"{oid}@{tag}", fn, np.asarray(lhs, dtype=object) if not isinstance(lhs, Poly) else lhs,
                                np.asarray(rhs, dtype=object) if not isinstance(rhs, Poly) else rhs, case, numeric_replay=native(fun))
-                    try:
-                        c = a.add(b)
-                        decide_true(run, f"post:TTNS.add:qn_valid@{tag}", "TTNS.add", not T.qnv_tree_violations(c), f"{T.qnv_tree_violations(c)[:1]}", case,
-                                    numeric_replay=native_cond(lambda: (lambda v_: (not v_, v_[:1]))(T.qnv_tree_violations(a0c.copy().add(b0c.copy()))), "as for the identities of this case"))
-                        r = Hs.apply(a)
-                        decide_true(run, f"post:TTNO.apply:qn_valid@{tag}", "TTNO.apply", not T.qnv_tree_violations(r), f"{T.qnv_tree_violations(r)[:1]}", case,
-                                    numeric_replay=native_cond(lambda: (lambda v_: (not v_, v_[:1]))(T.qnv_tree_violations(H.apply(a0c.copy()))), "as for the identities of this case"))
-                        a.expectation(Hs)
-                        decide_true(run, f"frame:TTNS.expectation:roots_restored@{tag}", "TTNS.expectation",
-                                    a.root.parent is None and Hs.root.parent is None and bt.root.parent is None, "a temporary parent is still attached to a root", case,
-                                    numeric_replay=native_cond(lambda: (lambda x: (x.expectation(H), (x.root.parent is None and H.root.parent is None and bt.root.parent is None, "parents"))[1])(a0c.copy()),
-                                                               "as for the identities of this case"))
-                    except Exception as ex:
-                        decide_true(run, f"post:TTNS:total@{tag}", "TTNS (symbolic run)", False, f"the code under test raised on symbolic tensors: {type(ex).__name__}: {ex}", case)
+                    if only is None:
+                        try:
+                            c = a.add(b)
+                            decide_true(run, f"post:TTNS.add:qn_valid@{tag}", "TTNS.add", not T.qnv_tree_violations(c), f"{T.qnv_tree_violations(c)[:1]}", case,
+                                        numeric_replay=native_cond(lambda: (lambda v_: (not v_, v_[:1]))(T.qnv_tree_violations(a0c.copy().add(b0c.copy()))), "as for the identities of this case"))
+                            r = Hs.apply(a)
+                            decide_true(run, f"post:TTNO.apply:qn_valid@{tag}", "TTNO.apply", not T.qnv_tree_violations(r), f"{T.qnv_tree_violations(r)[:1]}", case,
+                                        numeric_replay=native_cond(lambda: (lambda v_: (not v_, v_[:1]))(T.qnv_tree_violations(H.apply(a0c.copy()))), "as for the identities of this case"))
+                            a.expectation(Hs)
+                            decide_true(run, f"frame:TTNS.expectation:roots_restored@{tag}", "TTNS.expectation",
+                                        a.root.parent is None and Hs.root.parent is None and bt.root.parent is None, "a temporary parent is still attached to a root", case,
+                                        numeric_replay=native_cond(lambda: (lambda x: (x.expectation(H), (x.root.parent is None and H.root.parent is None and bt.root.parent is None, "parents"))[1])(a0c.copy()),
+                                                                   "as for the identities of this case"))
+                        except Exception as ex:
+                            decide_true(run, f"post:TTNS:total@{tag}", "TTNS (symbolic run)", False, f"the code under test raised on symbolic tensors: {type(ex).__name__}: {ex}", case)
                 # ---- kernel-stub mode: gauge moves and lossless compression around trivially factorised blocks (bookkeeping for all tensor values)
                 from renormalizer.utils import CompressConfig, CompressCriteria
                 big = CompressConfig(CompressCriteria.fixed, max_bonddim=10 ** 4)
@@ -172,7 +174,30 @@ def prove(run):
                             x.update_2site(node, x.merge_with_parent(node), m=10 ** 4, percent=percent, cano_parent=(i + (1 if percent else 0)) % 2 == 0)
                         return x
                     return f
+                def two_site_updates_probe(x):
+                    # per-node limits (compress_config.max_dims): 1 everywhere except at the node whose bond is being cut - nothing is lost iff update_2site reads that entry
+                    for i in range(1, len(x.node_list)):
+                        node = x.node_list[i]
+                        if node.parent is None:
+                            continue
+                        cfg = CompressConfig(CompressCriteria.fixed, max_bonddim=1)
+                        lim = np.ones(len(x.node_list) + 1, dtype=int)
+                        lim[x.node_idx[node]] = 10 ** 4
+                        cfg.max_dims = lim
+                        x.compress_config = cfg
+                        x.update_2site(node, x.merge_with_parent(node), percent=0, cano_parent=(i % 2 == 0))
+                    return x
+
+                def lossless_config_list(x):
+                    x.canonicalise()
+                    cfg = CompressConfig(CompressCriteria.fixed, max_bonddim=1)
+                    cfg.max_dims = np.array([int(d) for d in x.bond_dims] + [1], dtype=int)      # entry i limits the bond above node i
+                    x.compress_config = cfg
+                    x.compress()
+                    return x
                 kops = [("canonicalise", "TTNS.canonicalise", lambda x: (x.canonicalise(), x)[1]), ("lossless_compress", "TTNS.compress", lossless),
+                        ("two_site_update_limit_only_on_the_cut_bond", "TTNS.update_2site", two_site_updates_probe),
+                        ("compress_with_configured_per_bond_limits_of_current_dims", "TTNS.compress", lossless_config_list),
                         ("two_site_update_of_every_bond", "TTNS.update_2site", two_site_updates(0)),
                         ("two_site_update_of_every_bond_with_sector_perturbation", "TTNS.update_2site", two_site_updates(0.5)),
                         ("compress_with_per_bond_list_of_current_dims", "TTNS.compress", lossless_list),
@@ -181,6 +206,8 @@ def prove(run):
                 with SH.kernel_stub_mode_tree():
                     va = dn(a)
                     for opname, fn, f in kops:
+                        if only is not None and not any(o in opname for o in only):
+                            continue
                         if f is None:
                             nat = native_pair(lambda: (lambda c_: (dn((c_.canonicalise(), c_)[1]), dn(a0c) + dn(b0c)))(a0c.copy().add(b0c.copy())), "as for the identities of this case")
                         else:
